@@ -184,6 +184,12 @@ impl Prop for DtOffset {
                     if dv != dw {
                         panic!("differences against {} change with the offset: {:?} at offset 0, {:?} with the offset", fmt_instant(ri), dv, dw);
                     }
+                    // ... also when both operands are read in that same zone
+                    let ro = r.set_offset(o);
+                    let dz = (w.years_since(&ro), w.months_since(&ro), w.days_since(&ro), w.hours_since(&ro), w.seconds_since(&ro), ro.years_since(&w), ro.months_since(&w), ro.days_since(&w));
+                    if dv != dz {
+                        panic!("differences against {} change when both operands carry the offset: {:?} at offset 0, {:?} with the offset on both", fmt_instant(ri), dv, dz);
+                    }
                 }
             }
             let x = v.as_offset(o);
